@@ -87,7 +87,8 @@ def cases(tier, inst):
     for a, b, c in itertools.product(l3, repeat=3):
         if len({a, b, c}) < 3:
             continue
-        for shape in (("and", a, ("or", b, c)), ("or", a, ("and", b, c)), ("and", ("or", a, b), c), ("or", ("and", a, b), c)):
+        for shape in (("and", a, ("or", b, c)), ("or", a, ("and", b, c)), ("and", ("or", a, b), c), ("or", ("and", a, b), c),
+                      ("and", ("or", a, b), ("or", c, b)), ("or", ("and", a, b), ("and", c, b))):
             if len(Q.cond_vars(shape)) < 3:
                 continue
             for order in itertools.permutations("xyz"):
